@@ -42,13 +42,13 @@ structure Res (α : Type) where
   src : List (Slot α)
   dst : List (Slot α)
   out : Outcome
-deriving Repr
+deriving DecidableEq, Repr
 
 /-- result of a one-range algorithm -/
 structure Res1 (α : Type) where
   buf : List (Slot α)
   out : Outcome
-deriving Repr
+deriving DecidableEq, Repr
 
 /-- the element type as memory.hpp sees it -/
 structure Ty where
